@@ -111,6 +111,31 @@ CHECKS = {
              "command can judge the stripe (scrub: all data of the stripe correct; check: <= N damaged blocks); swap-of-two-blocks shape "
              "is not generated yet.",
         design="DESIGN.md section 4, C04"),
+    "C12": dict(
+        category="exploration",
+        technique="property-based testing (Hypothesis): byte-exact before/after snapshots of the whole scratch root against a per-command allow-list",
+        engine="hypothesis-cli",
+        text="Every command (status, diff, list, dup, devices, check, scrub, sync, fix, pool, touch) with generated options is run on "
+             "arrays brought by a random history to a healthy, unsynced, silently corrupted, damaged, partially lost or "
+             "content-copy-missing condition; everything below the scratch root is snapshotted before and after and each changed path "
+             "must be allowed for that command (read-only: nothing; scrub: content; sync: content+parity; fix: only reported paths and "
+             "parity_fixed blocks, never content; pool: pool dir; touch: zero sub-seconds + content).",
+        note="Block-wise attribution of parity changes by fix is done for single-file parity levels; for split levels only the file "
+             "set is checked.",
+        design="DESIGN.md section 4, C12"),
+    "C14": dict(
+        category="exploration",
+        technique="property-based testing (Hypothesis) of refusal/override pairs, with a shim-paused first command for the lock",
+        engine="hypothesis-cli",
+        text="For generated synced arrays (+ ordinary pending changes) each interlock trigger is applied on a generated device: "
+             "all files missing / rewritten, zero-size file, parity truncated below the used size or deleted (any level/split), "
+             "blocksize / hashsize changed, disk dropped from the configuration, a second command while a first one is paused holding "
+             "the lock. Without override: exit != 0 and content, parity and data byte-identical; with the override (or restored "
+             "configuration, or the first command finished) the sync completes and the C06 oracle holds; control cases must not be "
+             "refused.",
+        note="An absent parity file may be created empty by a refused sync; refusals for 'Insufficient parity space' under "
+             "--test-parity-limit are legitimate and counted as trivial.",
+        design="DESIGN.md section 4, C14"),
 }
 
 NOT_YET = "check not built yet at this commit (planned in DESIGN.md section 4); not claimed until it runs"
